@@ -1,6 +1,6 @@
 SPECIFICATION Spec
 CONSTANTS
-  MaxVals = 60
+  MaxVals = 40
   Depth = 3
   MaxLen = 2
   WideDepth = 2
